@@ -65,12 +65,15 @@ Print Assumptions merge_copies.
    rewritten snapshot is the input with exactly the matched nodes (and everything below a matched
    directory) removed — `prune` — and nothing else changed: listed as (path, node without subtree)
    pairs, the result is the list of the input's pairs whose path has no matched prefix (`kept`), each
-   node passed through the modification. *)
+   node passed through the modification.  The root path [] (the only one the command uses) carries no
+   premise: the nameless root is not matched against the globs (fix "rewrite does not treat the nameless
+   snapshot root as excludable"); the input is well-formed (every level sorted), so the modifier's sort of a
+   changed tree is the identity here. *)
 Theorem rewrite_removes_exactly_excluded : forall excl modn,
   (forall n, n_name (fst (modn n)) = n_name n /\ n_kind (fst (modn n)) = n_kind n /\
              n_content (fst (modn n)) = n_content n /\ n_sub (fst (modn n)) = n_sub n) ->
   (forall n, snd (modn n) = false -> fst (modn n) = n) ->
-  forall path t, excl path true = false ->
+  forall path t, wf_tree t = true -> path = [] \/ excl path true = false ->
     let r := result_tree t (rewrite_tree excl modn path t) in
     r = prune excl modn path t /\
     map (fun pn => (fst pn, strip (snd pn))) (paths path r) =
@@ -134,3 +137,33 @@ Print Assumptions merge_loop_sorted.
 Theorem pq_spec_nonvacuous : pq_spec (fun h x => x :: h) pop_min.
 Proof. exact pq_spec_satisfiable. Qed.
 Print Assumptions pq_spec_nonvacuous.
+
+From Verif.C12 Require Import Proofs5.
+
+(* a tree written by repair is in name order (non-strictly: a marked name may coincide with a sibling) *)
+Theorem repair_result_sorted : forall has_data mark resize readable t st,
+  repair_tree has_data mark resize readable t = Changed st -> sorted_le st.
+Proof. exact repair_result_sorted_lemma. Qed.
+Print Assumptions repair_result_sorted.
+
+(* THE HEAP.  Model.heap_push / heap_pop transcribe std's BinaryHeap (Vec push + sift_up; pop last, swap with
+   the root, sift_down_to_bottom, sift_up).  With the heap order as representation invariant they meet the
+   priority-queue specification: push and pop preserve the invariant and the multiset, pop returns None only
+   on the empty vector and otherwise an element of least name. *)
+Theorem heap_meets_pq_spec : pq_spec_inv heap_ok heap_push heap_pop.
+Proof. exact heap_meets_pq_spec_lemma. Qed.
+Print Assumptions heap_meets_pq_spec.
+
+(* Hence the loop as written, over the heap as transcribed — the executable that reproduces the
+   implementation case by case, ties included — meets the path specification of merge_paths and yields
+   strictly sorted output, with no premise about the priority queue. *)
+Theorem merge_loop_paths_binary_heap : forall cmp, preorder cmp ->
+  forall ts, Forall (fun t => wf_tree t = true) ts ->
+  forall p, p <> [] -> spec_at cmp ts (merge_loop cmp ts) p.
+Proof. exact merge_loop_paths_binary_heap_lemma. Qed.
+Print Assumptions merge_loop_paths_binary_heap.
+
+Theorem merge_loop_sorted_binary_heap : forall cmp ts,
+  Forall (fun t => wf_tree t = true) ts -> sorted (merge_loop cmp ts).
+Proof. exact merge_loop_sorted_binary_heap_lemma. Qed.
+Print Assumptions merge_loop_sorted_binary_heap.
